@@ -280,7 +280,12 @@ inductive CallVerdict
   | syntaxError
   | miss
 
+inductive ExprVerdict
+  | ok | bad | miss
+
 structure PyOracle where
+  /-- `ast.parse(code, mode="eval")` for a parameter default -/
+  expr : Line → ExprVerdict
   /-- `ast.parse(code)` for a `~` statement -/
   stmt : Line → StmtVerdict
   /-- `ast.parse("_temp_(" + args + ")", mode="eval")` -/
